@@ -19,8 +19,10 @@
 (*                 subnet mask, router, DNS servers and lease time that the  *)
 (*                 userspace server sends to that subscriber at that         *)
 (*                 moment" (yiaddr = the address userspace ACKed; option     *)
-(*                 fields = those of the userspace ACK; a REQUEST for an     *)
-(*                 address userspace would refuse must not be ACKed)         *)
+(*                 fields = those of the userspace ACK and, for a DISCOVER,  *)
+(*                 those of the OFFER userspace sent that client since, if   *)
+(*                 any: r.same; a REQUEST for an address userspace would     *)
+(*                 refuse must not be ACKed)                                 *)
 (* PassUnmodified  "when the fast path does not reply, the frame it hands to *)
 (*                 userspace is byte-identical to the frame received"        *)
 (* FpOnlyForBound  "after a lease is released, declined or expired in        *)
